@@ -274,25 +274,53 @@ def rule_hex(facts, rep):
     calls = [n for n in hir.walk(b["hir"]) if hir.is_call(n, "core::num::<impl u8>::from_str_radix")]
     rep.check(len(calls) == 3 and all(hir.lit_val(c["args"][1]) == 16 for c in calls), "hex-guard", b["path"], "radix-16", "", loc(b))
 
+    import poly
+    lets = {}
+    for n in hir.walk(b["hir"]):
+        if n.get("k") == "let" and n["pat"].get("k") == "pbind" and "init" in n:
+            lets[(n["pat"]["name"], n["pat"].get("id"))] = n["init"]
+
+    def third(e):
+        """hex.len() / 3 (directly or through temporaries) is the unit `t`"""
+        e = hir.simp(e)
+        if e.get("k") == "bin" and e["op"] == "Div" and hir.lit_val(e["r"]) == 3:
+            l = hir.simp(e["l"])
+            if l.get("k") == "local" and (l["name"], l.get("id")) in lets:
+                l = hir.simp(lets[(l["name"], l.get("id"))])
+            if hir.is_call(l, "core::str::<impl str>::len") and hir.is_local(l["args"][0], hexvar):
+                return "t"
+        return None
+
     def rng(c):
         ix = hir.peel(c["args"][0])
-        r = hir.simp(ix["i"])
-        f = {x["name"]: hirpp.expr(x["e"]) for x in r["fields"]}
-        return f.get("start"), f.get("end")
+        r = hir.simp(ix.get("i", {}))
+        f = {x["name"]: x["e"] for x in r.get("fields", [])}
+        if ix.get("k") != "index" or not hir.is_local(ix["e"], hexvar) or "start" not in f or "end" not in f:
+            raise Unrecognised(f"from_str_radix argument `{hirpp.expr(c['args'][0])[:60]}` is not a start..end slice of the hex word")
+        return poly.poly(f["start"], resolve=third, lets=lets), poly.poly(f["end"], resolve=third, lets=lets)
 
     got = [rng(c) for c in calls] if len(calls) == 3 else []
-    rep.check(got == [("0", "$l"), ("$l", "(2 Mul $l)"), ("(2 Mul $l)", "(3 Mul $l)")], "hex-guard", b["path"], "consecutive-thirds", f"{got}", loc(b))
+    T = poly.sym("t")
+    want = [(poly.const(0), T), (T, poly.mul(poly.const(2), T)), (poly.mul(poly.const(2), T), poly.mul(poly.const(3), T))]
+    order = [want.index(g) if g in want else None for g in got]
+    rep.check(sorted(x for x in order if x is not None) == [0, 1, 2], "hex-guard", b["path"], "consecutive-thirds",
+              f"the three slices must be [0..t], [t..2t], [2t..3t] with t = hex.len()/3; found {[(poly.show(a), poly.show(z)) for a, z in got]}", loc(b))
+    # the colour is built from the values parsed out of the first, second and third slice, in that order
+    src = hir.binding_sources(b["hir"])
     tup = [n for n in hir.walk(b["hir"]) if hir.is_call(n, "<anstyle::color::Color as core::convert::From<(u8, u8, u8)>>::from")]
-    ok = len(tup) == 1 and [hir.local_name(x) for x in hir.simp(tup[0]["args"][0])["es"]] == ["r", "g", "b"]
-    if ok:
-        frames = [fr for (x, fr) in hir.visit_with_conds(b["hir"], lambda x: x is tup[0])][0]
-        okp = False
-        for f in frames:
-            if f.get("kind") == "if" and f["val"] and hir.simp(f["expr"]).get("k") == "letexpr":
-                le = hir.simp(f["expr"])
-                if le["pat"].get("k") == "ptuple" and hir.simp(le["init"]).get("k") == "tuple":
-                    names = [p["pats"][0].get("name") if p.get("k") == "pts" and hir.last_seg(hir.pat_path(p)) == "Ok" else None for p in le["pat"]["pats"]]
-                    srcs = [x for x in hir.simp(le["init"])["es"]]
-                    okp = names == ["r", "g", "b"] and [hir.simp(s) for s in srcs] == [c for c in calls] if False else names == ["r", "g", "b"]
-        ok = okp
-    rep.check(ok, "hex-guard", b["path"], "colour-from-(r,g,b)-in-order", "", loc(b))
+    comps = []
+    if len(tup) == 1 and hir.simp(tup[0]["args"][0]).get("k") == "tuple":
+        comps = hir.simp(tup[0]["args"][0])["es"]
+    else:
+        rgb = [n for n in hir.walk(b["hir"]) if n.get("k") == "call" and n.get("ctor", "").endswith("RgbColor")]
+        if len(rgb) == 1:
+            comps = rgb[0]["args"]
+    flow = []
+    for x in comps:
+        x = hir.simp(x)
+        o = src.get(x.get("id")) if x.get("k") == "local" else x
+        idx = [i for i, c in enumerate(calls) if o is c]
+        flow.append(order[idx[0]] if idx and len(order) == 3 else None)
+    ok = flow == [0, 1, 2]
+    rep.check(ok, "hex-guard", b["path"], "colour-from-(r,g,b)-in-order",
+              f"Color::from((r, g, b)) must take the values parsed from the 1st, 2nd and 3rd third of the word; found slice order {flow}", loc(b))
